@@ -1218,54 +1218,80 @@ func forwardedStore(ld *ssa.UnOp) ssa.Value {
 	return val
 }
 
-// phiSplit: when a goal mentions a two-way (non loop-header) phi, prove it separately for each
-// incoming edge, with the phi replaced by that edge's value and the facts of the predecessor
-// (including the branch taken to reach the phi's block).
+// phiSplit proves a goal by case analysis over the incoming edges of a join block: when the
+// site's facts are too weak because control reaches it through a join (short-circuit conditions,
+// if/else that both fall through, two-way phis), the goal is proved separately for each incoming
+// edge of the nearest non-loop join dominating the site, with the facts of that predecessor, the
+// condition of the edge taken, and every phi of the join replaced by its value on that edge.
+// Applied recursively (bounded) for joins of joins.
 func (c *Ctx) phiSplit(f *ssa.Function, b *ssa.BasicBlock, g siteGoal) bool {
-	p := c.newProver(f, b)
-	var phis []*ssa.Phi
-	seen := map[*ssa.Phi]bool{}
-	for _, gl := range g.build(p) {
-		for v := range gl.co {
-			if ph, ok := v.v.(*ssa.Phi); ok && (v.kind == 'v' || v.kind == 'l' || v.kind == 'c') && !seen[ph] && ph.Parent() == f {
-				seen[ph] = true
-				phis = append(phis, ph)
-			}
-		}
+	type cond struct {
+		v ssa.Value
+		t bool
 	}
-	for _, ph := range phis {
-		// skip loop-carried phis (an edge value depends on the phi itself)
-		loop := false
-		for _, e := range ph.Edges {
-			if derivesFrom(e, func(v ssa.Value) bool { return v == ssa.Value(ph) }, false) {
-				loop = true
-			}
+	budget := 400
+	var rec func(blk *ssa.BasicBlock, extras []cond, subst map[ssa.Value]ssa.Value, depth int) bool
+	rec = func(blk *ssa.BasicBlock, extras []cond, subst map[ssa.Value]ssa.Value, depth int) bool {
+		budget--
+		if budget < 0 {
+			return false
 		}
-		if loop || !ph.Block().Dominates(b) {
-			continue
+		q := c.newProver(f, blk)
+		for _, ft := range factsAt(f, b) {
+			q.condFacts(ft.Cond, ft.Truth, "branch")
 		}
-		all := true
-		for i, e := range ph.Edges {
-			pred := ph.Block().Preds[i]
-			q := c.newProver(f, pred)
-			// facts of the site itself still hold (b is dominated by the phi's block)
-			for _, ft := range factsAt(f, b) {
-				q.condFacts(ft.Cond, ft.Truth, "branch")
-			}
-			if ifi := lastIf(pred); ifi != nil && pred.Succs[0] != pred.Succs[1] {
-				q.condFacts(ifi.Cond, pred.Succs[0] == ph.Block(), "edge into phi")
-			}
-			q.subst = map[ssa.Value]ssa.Value{ph: e}
-			if !proveAll(q, g) {
-				all = false
-				break
-			}
+		for _, e := range extras {
+			q.condFacts(e.v, e.t, "edge condition")
 		}
-		if all {
+		q.subst = subst
+		q.siteBlock[f] = b
+		if proveAll(q, g) {
 			return true
 		}
+		if depth == 0 {
+			return false
+		}
+		// nearest join on the dominator chain that is not a loop header
+		for j := blk; j != nil; j = j.Idom() {
+			if len(j.Preds) < 2 {
+				continue
+			}
+			loop := false
+			for _, p := range j.Preds {
+				if j.Dominates(p) {
+					loop = true
+				}
+			}
+			if loop {
+				continue
+			}
+			all := true
+			for i, p := range j.Preds {
+				ns := map[ssa.Value]ssa.Value{}
+				for k, v := range subst {
+					ns[k] = v
+				}
+				for _, in := range j.Instrs {
+					ph, ok := in.(*ssa.Phi)
+					if !ok {
+						break
+					}
+					ns[ph] = ph.Edges[i]
+				}
+				ne := append([]cond{}, extras...)
+				if ifi := lastIf(p); ifi != nil && p.Succs[0] != p.Succs[1] {
+					ne = append(ne, cond{ifi.Cond, p.Succs[0] == j})
+				}
+				if !rec(p, ne, ns, depth-1) {
+					all = false
+					break
+				}
+			}
+			return all
+		}
+		return false
 	}
-	return false
+	return rec(b, nil, nil, 7)
 }
 
 // resultLen: the constant length of slice/string result #idx of f on every exit that is not a
